@@ -493,7 +493,15 @@ impl<SD, E: Exfiltrator> SignalIterator<SD, E> {
 
             match self.signals.borrow_mut().poll_pending(has_signals) {
                 Ok(Some(pending)) => self.iter = pending,
-                Ok(None) => return PollResult::Pending,
+                Ok(None) => {
+                    // `poll_pending` doesn't consult the callback once closed, so the caller
+                    // would have no wakeup armed. A close that slipped in between the check
+                    // above and the one inside `poll_pending` must be reported as such.
+                    if self.signals.borrow_mut().handle.is_closed() {
+                        return PollResult::Closed;
+                    }
+                    return PollResult::Pending;
+                }
                 Err(err) => return PollResult::Err(err),
             }
         }
